@@ -1,5 +1,6 @@
 import PicoProofs.EncProg
 import PicoProofs.GoTieEncoder
+import PicoProofs.GoTieEncProg
 import PicoProofs.Tie
 /-
 C17 — Results are independent of buffer provenance; arguments are never modified.
@@ -50,6 +51,24 @@ theorem C17_buffer_independent (oracle oracle' : Nat → Bytes) (prog : List LOp
     dataOf1 (marshalBufferLow oracle prog buffer) = some (absOps prog) ∧
     dataOf1 (marshalLow oracle' prog) = some (absOps prog) :=
   marshalBuffer_eq_marshal oracle oracle' prog h buffer
+
+/-- the same about the Go source itself: ANY program over the encoder API (`GoTie.E.SOp`: appending
+writers and arbitrarily nested Message / PresentMessage / AlwaysMessage), run through the translated
+encoder.go by the translated message.go `MarshalBuffer` (any caller buffer, any re-allocation
+behaviour) and `Marshal`, yields exactly the abstract encoder's bytes and a nil error -/
+theorem C17_source_buffer_independent (oracle oracle' : Nat → Bytes) (prog : List GoTie.E.SOp)
+    (h : sizesOk (GoTie.E.SOp.toLs prog)) (hw : GoTie.E.SOp.weights prog < 9223372036854775808) (buffer : Bytes) :
+    GoSrc.Encoder.MarshalBuffer oracle (fun b => do let b' ← GoTie.E.srcOps oracle prog b; pure (b', true)) buffer
+      = .ok (absOps (GoTie.E.SOp.toLs prog), none) ∧
+    GoSrc.Encoder.Marshal oracle' (fun b => do let b' ← GoTie.E.srcOps oracle' prog b; pure (b', true))
+      = .ok (absOps (GoTie.E.SOp.toLs prog), none) := by
+  constructor
+  · rw [GoTie.E.MarshalBuffer_eq, GoTie.E.srcOps_eq oracle prog h ⟨[], buffer⟩ (by simpa [Buf.len] using hw)]
+    obtain ⟨t, ht⟩ := runOps_appends oracle _ h ⟨[], buffer⟩
+    simp [ht]
+  · rw [GoTie.E.Marshal_eq, GoTie.E.srcOps_eq oracle' prog h ⟨[], []⟩ (by simpa [Buf.len] using hw)]
+    obtain ⟨t, ht⟩ := runOps_appends oracle' _ h ⟨[], []⟩
+    simp [ht]
 
 /-- arguments are never modified: the only stores of the runtime are into the encoder's own buffer,
 the decoder's own cursor and output parameters; nothing stores through a value pointer handed to
